@@ -34,6 +34,13 @@ def check(run):
     st_, f_, _e = D.verify_function(run, "generation/duplicate_checker.py", "main", (lambda: c_generator.line_writer_contract("main", "all_equations_", ["all_fun"])), timeout_ms=10000,
                                     tag="writer all_equations", note="region: the `with open(all_equations_<n>.txt, 'w')` block; function strings abstract (no line break: A-str)")
     wfailed = list(wfailed) + list(f_)
+    # ... and the list it prints holds, at position k, the canonical string of tree k's OWN raw string (originals and rewritten trees alike; shared with C03)
+    from contracts import c_dupcheck
+    for we in (True, False):
+        st_, f_, _e = D.verify_function(run, "generation/duplicate_checker.py", "main", (lambda we=we: c_dupcheck.extras_region_contract(we)), timeout_ms=10000,
+                                        tag="canonicalisation, %s" % ("with extra trees" if we else "no extra tree"),
+                                        note="region: get_match_indexes call .. `all_fun[-nextra:] = [all_fun[f] for f in extra_orig]`; initial_sympify through its elementwise contract")
+        wfailed = list(wfailed) + list(f_)
     run.assume("A-sympy: sympify parses fully parenthesised text compositionally (the four parser rules); lambdify evaluates what it is given",
                "tree precondition: arities 0/1/2, children present and after their parent (established by check_tree; bounded in C01)")
     run.trust("pyvc", "z3 5.1.0", "pyvc.symtab")
